@@ -9,8 +9,10 @@ import (
 	"fmt"
 	"io"
 	"io/ioutil"
+	"mime/multipart"
 	"net"
 	"net/http"
+	"net/textproto"
 	"net/url"
 	"os"
 	"strings"
@@ -50,6 +52,7 @@ type server struct {
 var srvs [2]*server
 
 const user, pass = "verif-user", "verif-pass"
+const user2, pass2 = "second", "p2"
 
 func freePort() int {
 	l, err := net.Listen("tcp", "127.0.0.1:0")
@@ -67,7 +70,7 @@ func startServer(auth bool) *server {
 	la, _ := ma.NewMultiaddr(fmt.Sprintf("/ip4/127.0.0.1/tcp/%d", port))
 	cfg.HTTPListenAddr = []ma.Multiaddr{la}
 	if auth {
-		cfg.BasicAuthCredentials = map[string]string{user: pass}
+		cfg.BasicAuthCredentials = map[string]string{user: pass, user2: pass2}
 	}
 	a, err := rest.NewAPI(context.Background(), cfg)
 	if err != nil {
@@ -229,14 +232,264 @@ func checkOpts(t *rapid.T, what string, got api.PinOptions, o optSet) {
 	}
 }
 
-const ruleRaw = "raw HTTP requests against two real API instances (with and without basic-auth credentials): a route of the route table with valid or invalid path variables (CID v0/v1, truncated CID, text, peer ID, ipfs/ipns/ipld paths with sub-segments containing space, ?, #, %, unicode), each pin option present or absent with a valid or (one) invalid value, bodies for POST /peers, status filters, local flags; or an unknown path / wrong method; credentials none, wrong user, wrong password, right; oracle from the harness's own parse of what it sent: 401 and no RPC without valid credentials, 4xx and no RPC for any malformed element, otherwise exactly the named RPC with the CID/path and options sent; body is one JSON document; non-trivial = at least one option and (exactly one malformed element, or fully valid with >= 3 options); distinct by request line + credentials"
+var credKinds = []string{"none", "wronguser", "wrongpass", "unknown-empty", "known-empty", "empty-empty", "crossed", "garbage-header", "bearer", "right", "right", "right", "right2"}
+
+func credOK(cred string) bool { return cred == "right" || cred == "right2" }
+
+func setCred(req *http.Request, cred string) {
+	switch cred {
+	case "wronguser":
+		req.SetBasicAuth("someone", pass)
+	case "wrongpass":
+		req.SetBasicAuth(user, "nope")
+	case "unknown-empty":
+		req.SetBasicAuth("nobody", "")
+	case "known-empty":
+		req.SetBasicAuth(user, "")
+	case "empty-empty":
+		req.SetBasicAuth("", "")
+	case "crossed":
+		req.SetBasicAuth(user, pass2)
+	case "garbage-header":
+		req.Header.Set("Authorization", "Basic !!!not-base64")
+	case "bearer":
+		req.Header.Set("Authorization", "Bearer "+pass)
+	case "right":
+		req.SetBasicAuth(user, pass)
+	case "right2":
+		req.SetBasicAuth(user2, pass2)
+	}
+}
+
+const ruleAdd = "raw POST /add requests against the two API instances: a multipart body with one file of 0-3000 drawn bytes (or a body that is not multipart), each add option absent, valid, or (at most one) invalid: values the query parser must reject (layout, format, booleans, cid-version, replication factor, expire-in) or values that decode but cannot be honoured (unknown hash function or chunker, format=car with a body that is not a CAR, sha2-512 with CID version 0); stream-channels true or false; credentials as in the raw leg; oracle: 401 and no RPC without valid credentials; 4xx, no RPC and one JSON document for what the parser must reject; for values that cannot be honoured no Cluster.Pin, and either (buffered) an error status with exactly one JSON document or (streamed) status 200 with the error in the X-Stream-Error trailer and a body that is a sequence of JSON objects; for a valid request status 200, exactly one Cluster.Pin of the last reported CID with the name and factors sent, and a body that is one JSON array (buffered) or a sequence of objects (streamed); non-trivial = an invalid element or stream-channels=false or >= 3 options; distinct by request"
+
+func TestAddRaw(t *testing.T) {
+	leg := ev.L("raw-add", ruleAdd)
+	rapid.Check(t, func(t *rapid.T) {
+		s := srvs[rapid.IntRange(0, 1).Draw(t, "server")]
+		s.rec.Reset()
+		// blocks go to the local IPFS connector; Pin answers with the pin it got
+		s.rec.Set("Cluster.BlockAllocate", func(interface{}) (interface{}, error) { return []peer.ID{""}, nil })
+		s.rec.Set("Cluster.Pin", func(arg interface{}) (interface{}, error) { return arg, nil })
+		cred := rapid.SampledFrom(credKinds).Draw(t, "cred")
+		q := url.Values{}
+		nopts := 0
+		invalid := "" // "" | parser:<name> | semantic:<name> | not-multipart
+		content := rapid.SliceOfN(rapid.Byte(), 0, 3000).Draw(t, "content")
+		kind := rapid.SampledFrom([]string{"valid", "valid", "valid", "parser", "semantic", "not-multipart"}).Draw(t, "kind")
+		opt := func(name string, vals ...string) {
+			if rapid.IntRange(0, 2).Draw(t, "has-"+name) == 0 {
+				q.Set(name, rapid.SampledFrom(vals).Draw(t, name))
+				nopts++
+			}
+		}
+		opt("name", "n", "a b", "x&y=z")
+		opt("layout", "balanced", "trickle")
+		opt("chunker", "size-256", "size-1000")
+		opt("raw-leaves", "true", "false")
+		opt("wrap-with-directory", "true", "false")
+		opt("local", "true", "false")
+		opt("progress", "true", "false")
+		opt("replication-min", "-1")
+		opt("replication-max", "-1")
+		opt("meta-k", "v")
+		if rapid.IntRange(0, 2).Draw(t, "cidv1") == 0 {
+			q.Set("cid-version", "1")
+			opt("hash", "sha2-256", "sha2-512", "blake2b-256")
+			nopts++
+		}
+		buffered := rapid.Bool().Draw(t, "buffered")
+		if buffered {
+			q.Set("stream-channels", "false")
+		} else if rapid.Bool().Draw(t, "explicit-stream") {
+			q.Set("stream-channels", "true")
+		}
+		switch kind {
+		case "parser":
+			x := rapid.SampledFrom([][2]string{{"layout", "zigzag"}, {"format", "zip"}, {"local", "perhaps"}, {"shard", "2"}, {"cid-version", "one"}, {"raw-leaves", "yes"}, {"stream-channels", "sometimes"}, {"replication-min", "abc"}, {"replication-max", "1.5"}, {"expire-in", "soon"}, {"wrap-with-directory", "da"}, {"hidden", "?"}, {"nocopy", "2"}, {"progress", "100%"}, {"recursive", "deep"}}).Draw(t, "bad")
+			q.Set(x[0], x[1])
+			invalid = "parser:" + x[0]
+		case "semantic":
+			x := rapid.SampledFrom([]string{"hash", "chunker", "car", "sha512v0"}).Draw(t, "bad")
+			switch x {
+			case "hash":
+				q.Set("hash", "nosuchhash")
+			case "chunker":
+				q.Set("chunker", "nosuchchunker")
+			case "car":
+				q.Set("format", "car")
+				if len(content) == 0 {
+					content = []byte("not a car")
+				}
+			case "sha512v0":
+				q.Set("hash", "sha2-512")
+				q.Set("cid-version", "0")
+			}
+			invalid = "semantic:" + x
+		case "not-multipart":
+			invalid = "not-multipart"
+		}
+		var body bytes.Buffer
+		ctype := "text/plain"
+		if kind != "not-multipart" {
+			mw := multipart.NewWriter(&body)
+			h := textproto.MIMEHeader{}
+			h.Set("Content-Disposition", `form-data; name="file"; filename="f.bin"`)
+			h.Set("Content-Type", "application/octet-stream")
+			pw, _ := mw.CreatePart(h)
+			pw.Write(content)
+			mw.Close()
+			ctype = mw.FormDataContentType()
+		} else {
+			body.Write(content)
+		}
+		req, err := http.NewRequest("POST", s.url+"/add?"+q.Encode(), bytes.NewReader(body.Bytes()))
+		if err != nil {
+			t.Fatalf("harness: %v", err)
+		}
+		req.Header.Set("Content-Type", ctype)
+		setCred(req, cred)
+		resp, err := httpc.Do(req)
+		if err != nil {
+			t.Fatalf("request failed: %v", err)
+		}
+		rb, _ := ioutil.ReadAll(resp.Body)
+		resp.Body.Close()
+		trailer := resp.Trailer.Get("X-Stream-Error")
+		calls := s.rec.Take()
+		fail := func(format string, a ...interface{}) {
+			t.Fatalf("%s\nrequest: POST /add?%s (%d content bytes, %s) cred=%s auth-configured=%v\nstatus %d trailer %q body %.300q\nrpc: %v", fmt.Sprintf(format, a...), q.Encode(), len(content), kind, cred, s.auth, resp.StatusCode, trailer, rb, callNames(calls))
+		}
+		var pins []*api.Pin
+		for _, c := range calls {
+			if c.Name == "Cluster.Pin" {
+				pins = append(pins, c.Arg.(*api.Pin))
+			}
+		}
+		classes := []string{"kind:" + kind, "cred:" + cred}
+		if invalid != "" {
+			classes = append(classes, invalid)
+		}
+		if buffered {
+			classes = append(classes, "buffered")
+		}
+		// sequence of JSON objects
+		objects := func() ([]map[string]interface{}, error) {
+			dec := json.NewDecoder(bytes.NewReader(rb))
+			var out []map[string]interface{}
+			for {
+				var v map[string]interface{}
+				err := dec.Decode(&v)
+				if err == io.EOF {
+					return out, nil
+				}
+				if err != nil {
+					return out, err
+				}
+				out = append(out, v)
+			}
+		}
+		switch {
+		case s.auth && !credOK(cred):
+			classes = append(classes, "unauthorized")
+			if resp.StatusCode != 401 {
+				fail("no valid credentials but status is %d", resp.StatusCode)
+			}
+			if len(calls) != 0 {
+				fail("no valid credentials but the cluster was called")
+			}
+		case invalid == "not-multipart" || strings.HasPrefix(invalid, "parser:"):
+			if resp.StatusCode < 400 || resp.StatusCode > 499 {
+				fail("malformed element (%s) but status is %d", invalid, resp.StatusCode)
+			}
+			if len(calls) != 0 {
+				fail("malformed element (%s) but the cluster was called", invalid)
+			}
+			if err := oneJSON(rb); err != nil {
+				fail("body: %v", err)
+			}
+		case strings.HasPrefix(invalid, "semantic:"):
+			if len(pins) != 0 {
+				fail("the add cannot be honoured (%s) but something was pinned", invalid)
+			}
+			if buffered || parserBuffered(q) {
+				if resp.StatusCode < 400 {
+					fail("the add cannot be honoured (%s) but the buffered answer has status %d", invalid, resp.StatusCode)
+				}
+				if err := oneJSON(rb); err != nil {
+					fail("body: %v", err)
+				}
+			} else {
+				if resp.StatusCode != 200 || trailer == "" {
+					fail("the add cannot be honoured (%s): a streamed answer must carry the error in the X-Stream-Error trailer", invalid)
+				}
+				if _, err := objects(); err != nil {
+					fail("streamed body is not a sequence of JSON objects: %v", err)
+				}
+			}
+		default:
+			if resp.StatusCode != 200 || trailer != "" {
+				fail("valid add refused")
+			}
+			var last string
+			if buffered {
+				if err := oneJSON(rb); err != nil {
+					fail("body: %v", err)
+				}
+				var arr []map[string]interface{}
+				if err := json.Unmarshal(rb, &arr); err != nil || len(arr) == 0 {
+					fail("buffered answer is not a non-empty JSON array: %v", err)
+				}
+				last, _ = arr[len(arr)-1]["cid"].(string)
+				if last == "" {
+					if m, ok := arr[len(arr)-1]["cid"].(map[string]interface{}); ok {
+						last, _ = m["/"].(string)
+					}
+				}
+			} else {
+				objs, err := objects()
+				if err != nil || len(objs) == 0 {
+					fail("streamed answer is not a non-empty sequence of JSON objects: %v", err)
+				}
+				o := objs[len(objs)-1]
+				last, _ = o["cid"].(string)
+				if last == "" {
+					if m, ok := o["cid"].(map[string]interface{}); ok {
+						last, _ = m["/"].(string)
+					}
+				}
+			}
+			if len(pins) != 1 {
+				fail("a valid add must pin exactly once, saw %d pins", len(pins))
+			}
+			if pins[0].Cid.String() != last {
+				fail("pinned %s but the last reported CID is %q", pins[0].Cid, last)
+			}
+			if pins[0].Name != q.Get("name") {
+				fail("pinned with name %q, %q was sent", pins[0].Name, q.Get("name"))
+			}
+			if q.Get("replication-min") == "-1" && pins[0].ReplicationFactorMin != -1 || q.Get("replication-max") == "-1" && pins[0].ReplicationFactorMax != -1 {
+				fail("pinned with factors %d/%d", pins[0].ReplicationFactorMin, pins[0].ReplicationFactorMax)
+			}
+			if q.Get("meta-k") != "" && pins[0].Metadata["k"] != "v" {
+				fail("metadata lost: %v", pins[0].Metadata)
+			}
+		}
+		leg.Case(fmt.Sprintf("POST /add?%s len=%d %s cred=%s auth=%v", q.Encode(), len(content), kind, cred, s.auth), invalid != "" || buffered || nopts >= 3, classes...)
+	})
+}
+
+// parserBuffered says whether the query asks for a buffered answer.
+func parserBuffered(q url.Values) bool { return q.Get("stream-channels") == "false" }
+
+const ruleRaw = "raw HTTP requests against two real API instances (with and without basic-auth credentials): a route of the route table with valid or invalid path variables (CID v0/v1, truncated CID, text, peer ID, ipfs/ipns/ipld paths with sub-segments containing space, ?, #, %, unicode), each pin option present or absent with a valid or (one) invalid value, bodies for POST /peers, status filters, local flags; or an unknown path / wrong method; credentials (two users configured) none, wrong user, wrong password, unknown or known or empty user with an empty password, one user's name with the other's password, a garbage or non-basic Authorization header, right; oracle from the harness's own parse of what it sent: 401 and no RPC without valid credentials, 4xx and no RPC for any malformed element, otherwise exactly the named RPC with the CID/path and options sent; body is one JSON document; non-trivial = at least one option and (exactly one malformed element, or fully valid with >= 3 options); distinct by request line + credentials"
 
 func TestRaw(t *testing.T) {
 	leg := ev.L("raw-requests", ruleRaw)
 	rapid.Check(t, func(t *rapid.T) {
 		s := srvs[rapid.IntRange(0, 1).Draw(t, "server")]
 		s.rec.Reset()
-		cred := rapid.SampledFrom([]string{"none", "wronguser", "wrongpass", "right", "right"}).Draw(t, "cred")
+		cred := rapid.SampledFrom(credKinds).Draw(t, "cred")
 		route := rapid.SampledFrom([]string{"pin", "pin", "pinpath", "unpin", "unpinpath", "status", "statusall", "recover", "recoverall", "allocation", "allocations", "peeradd", "peerrm", "metrics", "simple", "unknown", "wrongmethod"}).Draw(t, "route")
 		method, p := "GET", "/"
 		q := url.Values{}
@@ -476,14 +729,7 @@ func TestRaw(t *testing.T) {
 		if err != nil {
 			t.Fatalf("harness: %v", err)
 		}
-		switch cred {
-		case "wronguser":
-			req.SetBasicAuth("someone", pass)
-		case "wrongpass":
-			req.SetBasicAuth(user, "nope")
-		case "right":
-			req.SetBasicAuth(user, pass)
-		}
+		setCred(req, cred)
 		resp, err := httpc.Do(req)
 		if err != nil {
 			t.Fatalf("request failed: %v", err)
@@ -498,7 +744,7 @@ func TestRaw(t *testing.T) {
 			}
 		}
 		switch {
-		case s.auth && cred != "right":
+		case s.auth && !credOK(cred):
 			classes = append(classes, "unauthorized")
 			if resp.StatusCode != 401 {
 				fail("no valid credentials but status is %d", resp.StatusCode)
